@@ -6,7 +6,7 @@ PROP = dict(
     assumptions=['A-UUID: uuid.uuid4() returns fresh non-zero 128-bit values (property of the standard library, not provable)',
                  'PY-1 int = mathematical integers; PY-2 declared sorts respected by callers'],
     trusted_base=['z3 5.1 / cvc5 1.0.3', 'pyvc symbolic executor (DESIGN.md §2)', 'CPython attribute lookup order (PY-6)'],
-    manifest=dict(text='Proof: obligations generated from the current source of IdGenerator.*, IntegerGenerator.readfunc, MetaClass.default_value and MetaClass.new without arguments (every non-referential attribute gets its typed default, the instance is appended to the storage) are discharged by z3/cvc5 for all inputs; the property sentences (1,2,3,..., peek never advances, typed defaults, unknown type rejected) are lemmas over those contracts.',
+    manifest=dict(text='Proof: obligations generated from the current source of IdGenerator.*, IntegerGenerator.readfunc, MetaClass.default_value, MetaClass.new without arguments (every non-referential attribute gets its typed default, the instance is appended to the storage), MetaClass.new with positional arguments (the j-th value is what the j-th declared attribute holds, the rest keep their typed default; classes without referential attributes) and MetaClass.clone (every attribute of the copy holds the value read from the original; composition with the positional form) are discharged by z3/cvc5 for all inputs; the property sentences (1,2,3,..., peek never advances, typed defaults, unknown type rejected) are lemmas over those contracts.',
                   note='Assumes A-UUID (uuid4 freshness), the pyvc encoding of Python (DESIGN section 2.3), and that callers respect declared sorts.',
                   technique="contract-based deductive verification: sidecar contracts on the real functions, verification conditions generated from the current source of /repo on every run by pyvc (Python AST -> z3/cvc5), every obligation discharged function by function; bounded stand-in (run-time contracts on the real functions driven by small-scope enumeration; labelled bounded, never counted as proved) for the functions outside the verifier's reach, reported separately"),
 )
